@@ -108,6 +108,24 @@ def run(res, ctx):
                 rows.append(_r(10, "Sell", rng.choice([50, 100, big // 2]), core.D(px * 100 - rng.randint(1, 9), 2), ""))
                 rows += [_r(60 + j, "Sell", 1, core.D(px + 1), a) for j, a in enumerate(small)]
                 cases.append({"rows": rows, "inits": {}})
+            # crafted: a second affiliate that bought only BEFORE the loss sale, inside its window, with a split
+            # (global or its own) between that purchase and the sale: its end-of-window holding is its balance at
+            # the sale, already in post-split shares
+            for _ in range(30 if tier == "quick" else 300):
+                d0 = core.BASE_DAY + rng.randint(10, 300)
+                other = rng.choice([a for a in NONREG if a != ""])
+                ratio = rng.choice([("2", "1"), ("3", "1"), ("1.0", "2.0"), ("3", "2"), ("10", "1")])
+                def _r(day, act, sh, aps, af):
+                    return {"sec": "FOO", "td": d0 + day, "sd": d0 + day, "act": act, "sh": core.D(sh), "aps": core.D(aps),
+                            "com": None, "cur": None, "rate": None, "af": af if af != "" else None}
+                rows = [_r(0, "Buy", 100, 10, ""), _r(40, "Buy", rng.choice([50, 100, 200]), 10, other),
+                        {"sec": "FOO", "td": d0 + 48, "sd": d0 + 48, "act": "Split", "split": ratio,
+                         "af": rng.choice([None, None, other])},
+                        _r(60, "Sell", rng.choice([50, 100]), 2, "")]
+                if rng.random() < 0.7:
+                    rows.append(_r(67, "Buy", rng.choice([20, 50]), 3, ""))
+                rows.append(_r(200, "Sell", 10, 4, other))
+                cases.append({"rows": rows, "inits": {}})
         for _ in range(min(500, n - done)):
             k = rng.random()
             afs = rng.sample(NONREG, rng.choice([1, 2, 2, 3, 3, 4]))
